@@ -1,4 +1,5 @@
-SETUP = "cd /verif/vx && CARGO_NET_OFFLINE=true cargo build --offline --release"
+SETUP = ("cd /verif/vx && CARGO_NET_OFFLINE=true cargo build --offline --release && cd /verif/extern && "
+         "RUSTUP_TOOLCHAIN=1.98.1-x86_64-unknown-linux-gnu CARGO_NET_OFFLINE=true cargo build --offline --release")
 HOOKS = {
     "guard": "unhindered_ec_verif",
     "enable": "RUSTFLAGS='--cfg unhindered_ec_verif' (no hook commits exist yet: Verus works on text extracted from /repo, Kani harnesses use the public API)",
@@ -7,7 +8,7 @@ HOOKS = {
     "add_only": True,
 }
 ENGINES = [
-    {"name": "verus", "path": "bin/check", "serves_properties": ["C04"],
+    {"name": "verus", "path": "bin/check", "serves_properties": ["C01", "C02", "C03", "C04"],
      "kind_free_text": "contract templates (specs/*.vrs) whose holes are filled with the real items/function bodies of /repo by the vx extractor on every run; Verus 0.2026.09.13 (Z3) discharges every obligation"},
 ]
 NOTES = ("Technique family: contract-based deductive verification of the real code. exit 2 = undecided (lost anchor, unsupported construct, "
@@ -24,6 +25,34 @@ CLAIMS = {
         "design_ref": "DESIGN.md §4 L0, §6 C04",
     },
 }
+PUSH_NOTE = ("Trusted: vstd's std model; std contracts in specs/05_std.vrs and 00_prelude.vrs; write!/writeln! stand-ins; derived Clone of PushProgram; "
+             "float/int `as` casts. Not yet under contract in this check: float and exec instruction families, PushInstruction/PushProgram dispatch, "
+             "run_to_completion loop, push_many (work in progress; the whole-program corollary is therefore not yet claimed).")
+CLAIMS.update({
+    "C01": {
+        "category": "proof", "engine": "verus",
+        "technique": "Verus contracts: every instruction's perform() == total spec function on the abstract state; per-variant obligation split",
+        "text": "For each instruction under contract the postcondition is absres(result) == sem(instruction, view(state)) where sem is a total spec function "
+                "written from the property text (top-op-second, /0 => 1, %0 => 0, overflow skips, saturating negate/abs, mathematical predicates that "
+                "consume all operands, ...). Verus proves the real bodies for all operand values, stack depths and capacities.",
+        "note": PUSH_NOTE, "design_ref": "DESIGN.md §4 L1/L2, §6 C01",
+    },
+    "C02": {
+        "category": "proof", "engine": "verus",
+        "technique": "Verus contracts: failure clause of every L1/L2 contract (carried state view-identical; Recoverable vs Fatal); TryRecover contract",
+        "text": "Every helper (with_push, with_replace, push_onto, replace_on, with_stack_push, with_stack_discard, not_full, map_err_into, try_recover) and every "
+                "instruction under contract proves: on Err the carried state equals the input state on every component of the abstract view, and the "
+                "error is Recoverable for missing operands / arithmetic faults and Fatal(Overflow) for a full destination stack.",
+        "note": PUSH_NOTE, "design_ref": "DESIGN.md §4 L1/L2, §6 C02",
+    },
+    "C03": {
+        "category": "proof", "engine": "verus",
+        "technique": "Verus contracts: wf invariant (len <= max) preserved by every outcome; Fatal only for Overflow; Verus' built-in panic-freedom/termination obligations",
+        "text": "Each instruction outcome keeps every stack within its maximum (out_wf), fatal errors are StackError::Overflow only, every loop has a decreases "
+                "clause, every unreachable!() is proved unreachable and no arithmetic/index obligation fails on the extracted bodies.",
+        "note": PUSH_NOTE, "design_ref": "DESIGN.md §4 L2/L3, §6 C03",
+    },
+})
 NOT_APPLICABLE = {
     "C09": "generation step: rayon worker threads and the thread-local OS-seeded rand::rng() inside par_next/serial_next are outside both installed verifiers (Kani: no threads/getrandom; Verus: no model); the remaining repository code is one collect::<Result<_,_>>() expression whose all-or-nothing behaviour is std's contract (DESIGN.md §7)",
 }
